@@ -100,6 +100,17 @@ class Recorder:
         self.add({"op": "enc", "t": t, "v": to_term(v), "out": out}, t, label)
         return raw
 
+    def enc_kept(self, t, v1, v2, label="enc-kept"):
+        """encode(v1) is handed to the caller, then encode(v2) runs on the same type: the first result must still be the
+        encoding of v1 (results are values, not views of a buffer the type reuses)."""
+        typ = self.typ(t)
+        enc = (lambda v: typ.encode(*v)) if t["k"] in ("dt", "stringn") else (lambda v: typ.encode(v))
+        kind, r1 = guarded(lambda: enc(v1))
+        if kind == "out" or not isinstance(r1, (bytes, bytearray)):
+            return
+        guarded(lambda: enc(v2))
+        self.add({"op": "enc", "t": t, "v": to_term(v1), "out": {"kind": "bytes", "b": list(r1)}}, t, label)
+
     def dec(self, t, data, label="dec"):
         out = do_decode(self.typ(t), bytes(data))
         self.add({"op": "dec", "t": t, "b": list(data), "out": out}, t, label)
